@@ -23,6 +23,22 @@ reg('C16', 'exhaustive small-scope enumeration (16 shards) with a row-set tiling
     'predicates; inside the bound this is exhaustive, outside it nothing is claimed.',
     TRUST + ' mtscomp as codec.')
 
+reg('C07', 'exhaustive small-scope enumeration + Hypothesis random vectors vs set-theoretic oracle',
+    'All cluster vectors over a gapped 4-id alphabet up to the length bound, in four integer '
+    'dtypes, are enumerated and every helper is compared with list-comprehension/set definitions '
+    '(partition, increasing groups, sorted unions, unsorted lookups); long random vectors and '
+    'model-level queries on generated datasets extend this beyond the bound by sampling.', TRUST)
+reg('C15', 'exhaustive small-scope enumeration + Hypothesis random trains vs O(n^2) pair-count oracle',
+    'Every spike train on a 4-gap grid up to the length bound, every labelling, five (bin, window) '
+    'pairs, permuted cluster-id lists with absent ids are enumerated and compared with a '
+    'brute-force pair count in exact integer arithmetic; random trains up to 400 spikes are sampled.',
+    TRUST + ' Power-of-two sample rates (exact time*rate).')
+reg('C17', 'Hypothesis generated selector instances vs constraint oracle',
+    'Generated chunk grids, spike times biased onto chunk bounds, cluster vectors and call '
+    'sequences are checked against constraints that hold for every random draw of the selector '
+    '(membership, strict order, stride of kept chunks, exact counts); the RNG inside phylib is '
+    'seeded from the case so each case replays exactly.', TRUST)
+
 
 def main():
     props = [json.loads(l) for l in (HERE / 'properties.jsonl').read_text().splitlines() if l.strip()]
